@@ -10,6 +10,7 @@ from __future__ import annotations
 
 import importlib
 import os
+import threading
 import sys
 import time
 import traceback
@@ -593,13 +594,37 @@ def run_symbolic(pdef, cvc5=False, work=None, frontier=None):
 LAST_TICKS = [0]
 
 
+class CaseTimeout(BaseException):
+    """one concrete evaluation of the real code ran longer than PYVC_T_CASE_S seconds"""
+
+
 def run_concrete(pdef, inputs):
-    """returns (status, results) with status in ok | skip | error"""
+    """returns (status, results) with status in ok | skip | error.  A single evaluation of the real code that does
+    not come back within PYVC_T_CASE_S seconds (default 150: the slowest legitimate case takes a few seconds) is
+    recorded as the failed clause <proof>/terminates - a loop that no longer terminates on a finite input is a
+    violation of every property, and the replay (same limit, own process) has to confirm it before it is reported."""
+    import signal
     vc = VCConc(pdef, inputs)
     LAST_TICKS[0] = 0
+    limit = float(os.environ.get("PYVC_T_CASE_S", "150"))
+
+    def on_alarm(*a):
+        raise CaseTimeout()
+    use_timer = hasattr(signal, "setitimer") and threading.current_thread() is threading.main_thread()
+    old = None
     try:
+        if use_timer:
+            old = signal.signal(signal.SIGALRM, on_alarm)
+            signal.setitimer(signal.ITIMER_REAL, limit)
         return _run_concrete(pdef, inputs, vc)
+    except CaseTimeout:
+        vc.results.append(("%s/terminates" % pdef.name, False, "no result after %.0f s on a finite input" % limit))
+        return "ok", vc.results, ""
     finally:
+        if use_timer:
+            signal.setitimer(signal.ITIMER_REAL, 0)
+            if old is not None:
+                signal.signal(signal.SIGALRM, old)
         LAST_TICKS[0] = vc.ticks
 
 
